@@ -22,7 +22,7 @@ func init() {
 func c03Proto(algs []uint) sut.Stack {
 	p := sut.Proto()
 	p.MultihashAlgorithms = algs
-	return *sut.NewStack(p)
+	return *sut.SharedStack(p)
 }
 
 func runC03(r *fw.Runner) {
